@@ -120,7 +120,7 @@ int main(int argc, char** argv) {
     }
     cells.clear(); m_excl = m_state = m_publish = true; filler = 1000000;
     size_t producers = 0, producers_done = 0;
-    // H = a blocking push whose callback is slow: having claimed its index it lets virtual time pass (1 ms at a time)
+    // H = a blocking push whose callback is slow: having claimed its index it lets virtual time pass (0.1 ms at a time)
     // until a timed pop has RETURNED, as long as one is still to return.  A timed pop returns by its deadline whatever
     // the producers do, so this always ends - unless the timed pop sleeps without a deadline on the unpublished index.
     size_t u_done = 0, u_left = 0;
@@ -139,7 +139,7 @@ int main(int argc, char** argv) {
           auto rd1 = [&](uint64_t& s) { op.popped.push_back(cb_read(s)); };
           auto wrh = [&](uint64_t& s) {
             size_t snap = u_done;
-            while (u_done == snap && u_left > 0) verif::advance_time(1000000ull);
+            while (u_done == snap && u_left > 0) verif::advance_time(100000ull);
             cb_write(s, op.vals[vi++]);
           };
           auto wrn = [&](IT b, IT e) {   // all cells of the range are held at once
@@ -317,7 +317,9 @@ int main(int argc, char** argv) {
         // the program lets pass explicitly (A ops) plus 50 ns per scheduling point of the run (< 2 ms)
         uint64_t slack = 2000000ull;
         for (auto x : all) if (x->k == 'A') slack += (uint64_t)x->arg * 1000000ull;
-        for (auto x : all) if (x->k == 'H') slack += 40000000ull;   // a slow callback lets 1 ms pass per scheduling point
+        // a slow callback lets 0.1 ms pass at each of its scheduling points: the popper's own steps (a few dozen per
+        // call) are interleaved with those
+        for (auto x : all) if (x->k == 'H') slack += 40000000ull;
         if (op->t1 - op->t0 > tmo + slack) timed = false;
         long long size_at = 0;
         for (auto x : all) if (x != op && x->k != 'A' && x->e < op->b) size_at += (long long)x->pushed_cnt + (long long)x->injected.size() - (long long)x->popped.size();
